@@ -23,7 +23,7 @@ pub fn eval(op: &str, args: &[&str]) -> Option<String> {
         "c02" => c02::eval(op, args),
         "c03" | "c04" | "c10" => c03::eval(op, args),
         "c05" => c05::eval(op, args),
-        "c07" => if op == "p.c07.native" || op == "p.c07.api" { c01::eval(op, args) } else { c07::eval(op, args) },
+        "c07" => if op == "p.c07.native" || op == "p.c07.api" || op == "p.c07.mixed" { c01::eval(op, args) } else { c07::eval(op, args) },
         "c09" => c09::eval(op, args),
         "c11" => c11::eval(op, args),
         "c12" | "c13" | "c14" => c12::eval(op, args),
